@@ -544,6 +544,59 @@ def l4_producer_polling(P, E):
                 r.violate((b.nid, "emitting loop without is_subscribed poll"),
                           "a potentially unbounded loop emits items without polling is_subscribed() (or the poll cannot leave "
                           "the loop): the producer spins on a subscription that has ended", body=b, line=c.line)
+    # run-to-exhaustion iterator consumers (for_each, fold, ..) whose closure emits: such a loop has no exit at
+    # all, so it is acceptable only over an in-memory collection (bounded) or behind an adapter that can end
+    # the iteration (take_while, map_while, take, scan)
+    DRIVERS = {"for_each", "fold", "try_for_each", "try_fold", "count", "last", "sum", "product", "collect", "max", "min",
+               "max_by", "min_by", "max_by_key", "min_by_key", "reduce", "all", "any", "find", "position", "for_each_concurrent"}
+    for b in P.bodies.values():
+        if b.id in P.absorbed or b.nid.startswith(SCTL + "::") or b.nid.startswith(OBSERVER + "::"):
+            continue
+        for c in b.calls:
+            if not c.path.startswith("std::iter::Iterator::") or c.path.split("::")[-1] not in DRIVERS or not c.args:
+                continue
+            emits = False
+            for t_ in E.inline_targets(c):
+                if E.may(t_) & set(EMIT_ATOMS):
+                    emits = True
+            # closures anywhere in the adapter chain (filter(|..| ..).map(..)) count too: look at the receiver's type
+            rty = c.args[0].get("t") or {}
+            rs = rty.get("s", "")
+            if not emits:
+                continue
+
+            def base_unbounded(t, depth=0):
+                """peel iterator adapters (Filter<I, F>, Map<I, F>, Cloned<I>, ..) down to the underlying iterator:
+                a type parameter / opaque type / RangeFrom / Repeat / Cycle .. may be unbounded; a std collection's
+                iterator or a Range is not"""
+                t = ty_peel(t)
+                if not isinstance(t, dict) or depth > 8:
+                    return True
+                if t.get("k") in ("param", "alias", "opaque", "dyn"):
+                    return True
+                if t.get("k") != "adt":
+                    return False
+                path = norm(t.get("path") or "")
+                if path.startswith("std::iter::") or path.startswith("core::iter::"):
+                    nm = path.split("::")[-1]
+                    if nm in ("Repeat", "RepeatWith", "Cycle", "Successors", "FromFn"):
+                        return True
+                    if nm in ("Once", "Empty", "OnceWith"):
+                        return False
+                    args = t.get("args") or []
+                    return base_unbounded(args[0], depth + 1) if args else True
+                if path in ("std::ops::RangeFrom", "core::ops::RangeFrom"):
+                    return True
+                return False
+            unbounded = base_unbounded(rty)
+            stoppable = any(x in rs for x in ("TakeWhile<", "MapWhile<", "Take<", "Scan<")) or c.path.split("::")[-1] in (
+                "try_for_each", "try_fold", "all", "any", "find", "position")
+            r.instance((b.nid, "iterator-driven emit"), True, "%s over %s" % (c.path.split("::")[-1], rs[:80]))
+            if unbounded and not stoppable:
+                r.violate((b.nid, "emitting iterator consumer cannot stop"),
+                          "items are emitted from inside Iterator::%s over a caller-supplied iterator (%s): the iteration runs to "
+                          "exhaustion whatever the subscriber does - with an unbounded iterator the producer never returns after "
+                          "the subscription ended" % (c.path.split("::")[-1], rs[:80]), body=b, line=c.line)
     if n < 4:
         r.error("only %d unbounded emitting loops found (floor 4)" % n)
     return r
